@@ -28,7 +28,7 @@ func retainedOutputs(e error) string {
 }
 
 func runC12(c *core.Ctx, r *core.Result) {
-	p := plan{fullDepth: 3, coreDepth: 4, strDepth: 1, alphabet: tm.REG, aliasSides: true}
+	p := plan{fullDepth: 3, coreDepth: 4, strDepth: 2, alphabet: tm.REG, aliasSides: true}
 	hops := 2
 	if c.Thorough() {
 		p = plan{fullDepth: 4, coreDepth: 5, strDepth: 2, alphabet: tm.REG, aliasSides: true}
@@ -65,8 +65,14 @@ func runC12(c *core.Ctx, r *core.Result) {
 					}
 					out := retainedOutputs(e)
 					for _, si := range toks {
-						if !strings.Contains(out, si.Token) {
-							return fail(fmt.Sprintf("lost:hop%d", min(k, 2)), "safe string %q (slot %s.%s) is absent from the Sentry report and from GetAllSafeDetails after %d hop(s)", si.Value, si.Op, si.Name, k)
+						for _, line := range strings.Split(si.Value, "\n") {
+							want := line
+							if si.Fmt || si.Name == "domain" { // printf format, or rendered with %q by NamedDomain
+								want = si.Token // the slot is a printf format: its text is not verbatim
+							}
+							if strings.Contains(line, si.Token) && !strings.Contains(out, want) {
+								return fail(fmt.Sprintf("lost:hop%d", min(k, 2)), "safe string %q (slot %s.%s): its line %q is absent from the Sentry report and from GetAllSafeDetails after %d hop(s) (the same object was reported before each hop)", si.Value, si.Op, si.Name, line, k)
+							}
 						}
 					}
 				}
